@@ -10,7 +10,7 @@ from collections import OrderedDict
 from cryptography.hazmat.primitives.ciphers.algorithms import AES
 from lbry.blob import MAX_BLOB_SIZE
 from lbry.blob.blob_info import BlobInfo
-from lbry.blob.blob_file import AbstractBlob, BlobFile
+from lbry.blob.blob_file import AbstractBlob, BlobFile, is_valid_blobhash
 from lbry.utils import get_lbry_hash_obj
 from lbry.error import InvalidStreamDescriptorError
 
@@ -194,6 +194,16 @@ class StreamDescriptor:
             raise InvalidStreamDescriptorError("Stream terminator blob should not have a hash")
         if any(i != blob_info['blob_num'] for i, blob_info in enumerate(decoded['blobs'])):
             raise InvalidStreamDescriptorError("Stream contains out of order or skipped blobs")
+        for blob_info in decoded['blobs']:
+            # the stream hash covers blob_hash + str(blob_num) + iv + str(length) without separators, it only commits
+            # to each of them if the hash and the iv have their fixed width and the numbers are plain integers
+            length, blob_hash = blob_info['length'], blob_info.get('blob_hash')
+            if type(length) is not int or not 0 <= length <= MAX_BLOB_SIZE or type(blob_info['blob_num']) is not int:
+                raise InvalidStreamDescriptorError("Invalid blob length or number")
+            if not isinstance(blob_info['iv'], str) or not re.fullmatch('[0-9a-fA-F]{32}', blob_info['iv']):
+                raise InvalidStreamDescriptorError("Invalid blob iv")
+            if length and not (isinstance(blob_hash, str) and is_valid_blobhash(blob_hash)):
+                raise InvalidStreamDescriptorError("Invalid blob hash")
         added_on = time.time()
         descriptor = cls(
             loop, blob_dir,
